@@ -138,6 +138,16 @@ func forwardCheckPoint(ctx context.Context, nodeKey string) context.Context {
 	return context.WithValue(ctx, checkPointKey{}, (*checkpoint)(nil))
 }
 
+// clearCheckPoint is for the tasks a run creates itself: only the tasks restored from a
+// checkpoint (restoreTasks) continue a nested graph from its nested checkpoint, a task
+// created later in the resumed run is a fresh execution of its node.
+func clearCheckPoint(ctx context.Context) context.Context {
+	if getCheckPointFromCtx(ctx) == nil {
+		return ctx
+	}
+	return context.WithValue(ctx, checkPointKey{}, (*checkpoint)(nil))
+}
+
 func newCheckPointer(
 	inputPairs, outputPairs map[string]streamConvertPair,
 	store CheckPointStore,
